@@ -45,15 +45,28 @@ def jresult : Except CErr Obj → Json
   | .error (.runtime named) => Json.mkObj [("err", Json.str "RuntimeError"), ("named", jstr named)]
   | .error (.other e) => errJson e
 
+/-- accesses are accessor names, or `rm:<accessor>`: every candidate file of that accessor is deleted from the file
+system before the next access (the cached objects stay what they are) -/
+def runAccesses (w : World) (cp : Str) : State → List (Bool × List Str) → List String → List Json → State × List Json
+  | s, _, [], acc => (s, acc.reverse)
+  | s, gone, k :: ks, acc =>
+    if k.startsWith "rm:" then
+      let kind := (k.drop 3).toString
+      let gone' := gone ++ (candidates kind).map (fun c => key (Checksum.pathJoin cp c))
+      runAccesses w cp s gone' ks (Json.mkObj [("rm", Json.bool true)] :: acc)
+    else
+      let r := access (w.without gone) s k
+      runAccesses w cp r.1 gone ks (jresult r.2 :: acc)
+
 def opRun (a : Json) : Json :=
   let w := World.ofTree (nodesOf (get a "nodes")) (ordersOf (get a "orders")) (loadsOf (get a "loads"))
-  let kinds : List Kind := (getArr a "accesses").filterMap fun x => match x with | .str s => some s | _ => none
+  let kinds : List String := (getArr a "accesses").filterMap fun x => match x with | .str s => some s | _ => none
   match resolve w (getStrD a "compose_path") with
   | .error e => Json.mkObj [("compose_path", errJson e)]
   | .ok cp =>
-    let r := accessAll w { composePath := cp } kinds
+    let r := runAccesses w cp { composePath := cp } [] kinds []
     Json.mkObj [("compose_path", jok (jstr cp)),
-                ("results", Json.arr (r.2.map jresult).toArray),
+                ("results", Json.arr r.2.toArray),
                 ("loads", Json.arr (r.1.loads.map fun l => Json.arr #[Json.str l.1, jstr l.2]).toArray)]
 
 def ops : List (String × (Json → Json)) := [("cd_run", opRun)]
